@@ -11,3 +11,66 @@ package auth
 //@   trusted
 //@   ensures result != nil
 //@   modifies alloc, new elems[string]
+//@
+//@ import http "net/http"
+//@ import io "io"
+//@
+//@ pure ownedBy(token string, registry string) bool
+//@
+//@ iface Cache.GetScheme params ctx, registry
+//@   modifies alloc
+//@ iface Cache.GetToken params ctx, registry, scheme, key
+//@   ensures result1 == nil ==> ownedBy(result0, registry)
+//@   modifies alloc
+//@ iface Cache.Set params ctx, registry, scheme, key, fetch
+//@   ensures result1 == nil ==> ownedBy(result0, registry)
+//@   modifies alloc
+//@
+//@ func rewindRequestBody
+//@   requires [wf] req != nil
+//@   ensures [C17:rewound] result == nil ==> req.Body == nil || req.Body == box(http.NoBody) || !consumedBody(req.Body)
+//@   ensures [C17:not-rewindable-is-error] old(req.Body) != nil && old(req.Body) != box(http.NoBody) && old(req.GetBody) == nil ==> result != nil
+//@   modifies http.Request.Body@req, alloc, elems[any]
+//@
+//@ func (*Client).send
+//@   trusted
+//@   requires [C17:body-unconsumed] req != nil && (req.Body == nil || req.Body == box(http.NoBody) || !consumedBody(req.Body))
+//@   ensures old(req.Body) != nil ==> consumedBody(old(req.Body))
+//@   ensures forall b io.ReadCloser :: b != old(req.Body) ==> consumedBody(b) == old(consumedBody(b))
+//@   ensures result1 == nil ==> result0 != nil && alive(result0) && result0.Body != nil && result0.Request != nil && result0.Request.URL != nil && result0.Header != nil
+//@   modifies ghost.consumedBody, ghost.trips, alloc, ghost.closedRC
+//@
+//@ func parseChallenge
+//@   trusted
+//@   modifies alloc, new map[string]string
+//@ func GetAllScopesForHost
+//@   trusted
+//@   modifies alloc, new elems[string]
+//@ func CleanScopes
+//@   trusted
+//@   modifies alloc, elems[string]
+//@
+//@ ghost local authSends int
+//@ ghost local authSets int
+//@ func (*Client).Do
+//@   serves C16, C17
+//@   requires [wf] originalReq != nil && originalReq.Header != nil && (originalReq.Body == nil || originalReq.Body == box(http.NoBody) || !consumedBody(originalReq.Body))
+//@   entry set authSends = 0
+//@   entry set authSets = 0
+//@   call send requires [C16:request-is-original-or-clone] args.req == originalReq || cloneOf(args.req) == originalReq
+//@   call send set authSends = authSends + 1
+//@   call Cache.Set set authSets = authSets + 1
+//@   call Cache.Set requires [C16:cache-keyed-by-request-host] args.registry == originalReq.Host
+//@   call Cache.GetToken requires [C16:cache-keyed-by-request-host] args.registry == originalReq.Host
+//@   call Cache.GetScheme requires [C16:cache-keyed-by-request-host] args.registry == originalReq.Host
+//@   call Header.Set requires [C16:authorization-owned-by-request-host] args.key == "Authorization" ==> (exists t string :: (args.value == "Basic " + t || args.value == "Bearer " + t) && ownedBy(t, originalReq.Host))
+//@   ensures [C16:at-most-3-registry-sends] authSends <= 3
+//@   ensures [C16:at-most-1-cache-set] authSets <= 1
+//@
+//@ func (*Client).Do$1
+//@   requires [wf] c != nil
+//@   call fetchBasicAuth requires [C16:credentials-read-for-request-host] args.registry == host
+//@ func (*Client).Do$2
+//@   requires [wf] c != nil
+//@   call fetchBearerToken requires [C16:credentials-read-for-request-host] args.registry == host
+//@   call fetchBearerToken requires [C16:realm-from-own-challenge] args.realm == realm && args.service == service
